@@ -5,6 +5,7 @@ import (
 	"math"
 	"math/rand/v2"
 	"strings"
+	"unicode/utf16"
 	"unicode/utf8"
 
 	"github.com/theory/sqljson/path"
@@ -19,10 +20,10 @@ func init() {
 		Level: "exploration",
 		Rule: "every path the parser accepts from: the exhaustive operator-pair x side x trailing-accessor-chain matrix; every code point in a boundary set (all of U+0001..U+2FFF, surrogate edges, U+FFFD..U+10000, U+10FFFF; thorough: every Unicode scalar value) as key, string literal and variable name; numeric literals over the boundary grid in every spelling; every .** bound combination; every regex flag subset; random generated paths in random spellings. " +
 			"Relation: p vs Parse(p.String()) - parse succeeds, fixed point, same mode/predicate flag/tree, same typed results on generated documents - and the same through MarshalText/UnmarshalText, MarshalBinary/UnmarshalBinary, Value/Scan(string), Scan([]byte). Non-trivial: the canonical text differs from the input text; distinct by canonical text",
-		Run:    runC02,
-		Replay: replayC02,
+		Run:          runC02,
+		Replay:       replayC02,
 		MinExercised: map[string]int64{"reparse": 20000, "fixpoint": 20000, "tree": 20000, "behaviour": 5000, "marshal.text": 20000, "marshal.binary": 20000, "sql.value-scan": 20000},
-		Assumptions: []string{"quantifies over paths accepted by Parse (trees built directly with the ast constructors are out of scope); results compared including the Go type of numbers"},
+		Assumptions:  []string{"quantifies over paths accepted by Parse (trees built directly with the ast constructors are out of scope); results compared including the Go type of numbers"},
 	})
 }
 
@@ -148,6 +149,12 @@ func roundTrip(c *h.Ctx, p *path.Path, src string, docs []string, r *rand.Rand) 
 	if len(docs) > 0 && t1 == t2 {
 		return // same tree: same behaviour; spend the executions where the tree differs or on a sample
 	}
+	if strings.Contains(s1, "keyvalue") && strings.Contains(s1, ".*") {
+		// the members of a keyvalue triple are expanded in an unspecified
+		// order, so two executions of even the same path may differ
+		c.Skip("behaviour", "keyvalue-triple-member-order")
+		return
+	}
 	for _, d := range docs {
 		useNum := r.IntN(2) == 0
 		o1 := h.Call("query", p, h.Decode(d, useNum), h.Opts{Vars: h.DecodeVars(stdVars1, useNum), TZ: true})
@@ -231,6 +238,12 @@ func roundTripAlways(c *h.Ctx, p *path.Path, src string, docs []string, r *rand.
 	}
 	cs := inputCase(src, "")
 	cs.Kind = "roundtrip"
+	if strings.Contains(s1, "keyvalue") && strings.Contains(s1, ".*") {
+		// the members of a keyvalue triple are expanded in an unspecified
+		// order, so two executions of even the same path may differ
+		c.Skip("behaviour", "keyvalue-triple-member-order")
+		return
+	}
 	for _, d := range docs {
 		useNum := r.IntN(2) == 0
 		o1 := h.Call("query", p, h.Decode(d, useNum), h.Opts{Vars: h.DecodeVars(stdVars1, useNum), TZ: true})
@@ -329,6 +342,22 @@ func runC02(c *h.Ctx) {
 		try("$." + q)
 		try(q + " == $.k")
 		try("$" + q)
+		// the same code point written with an escape: the printer chooses
+		// its own spelling, which the parser must accept again
+		var esc string
+		switch {
+		case cp > 0xffff && i%2 == 0:
+			h1, h2 := utf16.EncodeRune(cp)
+			esc = fmt.Sprintf(`\u%04x\u%04x`, h1, h2)
+		case cp > 0xffff || i%3 == 0:
+			esc = fmt.Sprintf(`\u{%x}`, cp)
+		default:
+			esc = fmt.Sprintf(`\u%04X`, cp)
+		}
+		try(`$."a` + esc + `b"`)
+		if i%8 == 0 {
+			try(`"` + esc + `" starts with $."` + esc + `"`)
+		}
 		if i%16 == 0 {
 			try(`$.x like_regex ` + q)
 		}
